@@ -157,7 +157,7 @@ Definition frozen_loadNodes : list (string * string) :=
     ("endif", "");
     ("decl", "var dirs []string");
     ("range", "dir := range repoMap.Src");
-    ("assign", "dirs = append(dirs, dir)");
+    ("assign", "dirs = append(dirs, makeRelPath("""", dir))");
     ("endrange", "");
     ("call", "sort.Strings(dirs)");
     ("range", "_, dir := range dirs");
